@@ -129,6 +129,11 @@ func parseGradient(token css_ast.Token) (gradient parsedGradient, success bool) 
 					return
 				}
 				tokens = tokens[1:]
+
+				// A midpoint must be followed by another color stop
+				if len(tokens) == 0 {
+					return
+				}
 			}
 		}
 
